@@ -1,7 +1,1 @@
 package main
-
-
-
-
-
-
